@@ -1255,7 +1255,8 @@ class BaseCfgLine(object):
         text_before_replace = self._text
 
         text_after_replace = re.sub(regex, replacergx, self._text)
-        self.text = text_after_replace
+        if text_before_replace != text_after_replace:
+            self.text = text_after_replace
 
 
         if self.confobj and text_before_replace != text_after_replace:
